@@ -432,7 +432,7 @@ def pretty_token_sample(cdir, rdir, limit=None):
         with open(os.path.join(cdir, lst)) as f:
             for line in f:
                 w = line.split()
-                if w and w[0] not in mods and w[0] != "m905.wasm":
+                if w and w[0] not in mods and w[0] not in ("m905.wasm", "m906.wasm"):
                     mods.append(w[0])
     if limit:
         mods = mods[:limit]
@@ -475,7 +475,7 @@ def compile_all_sample(cdir, rdir):
         with open(os.path.join(cdir, lst)) as f:
             for line in f:
                 w = line.split()
-                if w and w[0] not in mods and w[0] != "m905.wasm":
+                if w and w[0] not in mods and w[0] not in ("m905.wasm", "m906.wasm"):
                     mods.append(w[0])
     def work(m):
         res = []
